@@ -332,9 +332,10 @@ def lexLe : List Nat → List Nat → Bool
   | _ :: _, [] => false
   | a :: as, b :: bs => if a < b then true else if b < a then false else lexLe as bs
 
-/-- `ContextOrder`: compare the context words from the last to the first, then the predicted word -/
+/-- `ContextOrder` on records of one order: compare the context words from the last to the first,
+then the predicted word — i.e. lexicographically on `reverse ctx ++ [word]` -/
 def ctxOrderLe (a b : Rec Nat) : Bool :=
-  if a.1.reverse = b.1.reverse then decide (a.2 ≤ b.2) else lexLe a.1.reverse b.1.reverse
+  lexLe (a.1.reverse ++ [a.2]) (b.1.reverse ++ [b.2])
 
 /-- the merged-probability stream of order `k` after the sort of pass 2 -/
 def sortedStream (cs : Comps Nat) (k : Nat) : List (Rec Nat) :=
